@@ -9,6 +9,7 @@ from typing import TYPE_CHECKING, Any, TypedDict
 
 from pyopenapi_gen.core.http_status_codes import get_exception_class_name, is_error_code
 from pyopenapi_gen.core.writers.code_writer import CodeWriter
+from pyopenapi_gen.core.writers.python_construct_renderer import py_string_literal
 from pyopenapi_gen.helpers.endpoint_utils import (
     _get_primary_response,
 )
@@ -643,6 +644,9 @@ class EndpointResponseHandlerGenerator:
 
         # Add Union import
         context.add_import("typing", "Union")
+        # The branches below call structure_from_dict for model types
+        if any(self._should_use_cattrs_structure(t) for t in types):
+            context.add_import(f"{context.core_package_name}.cattrs_converter", "structure_from_dict")
 
         # Generate try/except blocks for each type
         first_type = types[0]
@@ -713,11 +717,12 @@ class EndpointResponseHandlerGenerator:
             is_last = i == len(content_type_items) - 1
 
             # Write conditional statement with lowercase content-type (case-insensitive comparison)
-            content_type_lower = content_type.lower()
+            # The declared media type is compared without its parameters, like the header value above
+            content_type_lower = py_string_literal(content_type.split(";")[0].strip().lower())
             if is_first:
-                writer.write_line(f'if content_type == "{content_type_lower}":')
+                writer.write_line(f"if content_type == {content_type_lower}:")
             elif not is_last:
-                writer.write_line(f'elif content_type == "{content_type_lower}":')
+                writer.write_line(f"elif content_type == {content_type_lower}:")
             else:
                 # Last item - use else for fallback
                 writer.write_line("else:  # Default/fallback content type")
@@ -732,6 +737,7 @@ class EndpointResponseHandlerGenerator:
             elif self._should_use_cattrs_structure(python_type):
                 # Complex type - use cattrs deserialization
                 context.add_typing_imports_for_type(python_type)
+                context.add_import(f"{context.core_package_name}.cattrs_converter", "structure_from_dict")
                 deserialization_code = self._get_cattrs_deserialization_code(python_type, "response.json()")
                 writer.write_line(f"return {deserialization_code}")
             else:
